@@ -440,11 +440,14 @@ def _from_parent(e) -> bool:
 
 def judge_fault_free(res, op, model, ref, streams, solvers, viol, ctx, out, use_split):
     p12 = use_split
+    owner = "C03" if op[0] != "solve" else "C02"  # "terminates and returns" / "and then stops" hold through this solver too
     if res["outcome"] == "deadlock":
         viol("C11", "extra-get-after-last-marker", ctx + f"parent blocks forever although every worker finished: {res['error']}")
+        viol(owner, "mp-call-does-not-return", ctx + f"the call blocks forever although no worker failed: {res['error']}")
         return
     if res["outcome"] == "busywait":
         viol("C11", "busy-wait", ctx + f"{res['error']}")
+        viol(owner, "mp-call-does-not-return", ctx + f"{res['error']}")
         return
     if res["outcome"] == "raised":
         e = res["error"]
